@@ -24,7 +24,7 @@ Suppressions:
 from src.analyzers.rust_base import TREE_SITTER_RUST_AVAILABLE
 from src.core.base import BaseLintContext, MultiLanguageLintRule
 from src.core.constants import Language
-from src.core.linter_utils import load_linter_config
+from src.core.linter_utils import is_ignored_path, load_linter_config, project_relative_path
 from src.core.types import Violation
 from src.linter_config.ignore import get_ignore_parser
 
@@ -141,7 +141,9 @@ class SRPRule(MultiLanguageLintRule):
             return False
 
         file_path = str(context.file_path)
-        return any(pattern in file_path for pattern in config.ignore)
+        if any(pattern in file_path for pattern in config.ignore):
+            return True
+        return is_ignored_path(project_relative_path(context), config.ignore)
 
     def _check_python(self, context: BaseLintContext, config: SRPConfig) -> list[Violation]:
         """Check Python code for SRP violations.
